@@ -711,7 +711,7 @@ def gen_dicts(rng, tier):
             for ob in ("absent", "nonbytes", b"+0200".hex(), b"+200".hex()):
                 add(t, ob, off, rng.choice(negs), rng.random() < 0.2)
     # random
-    for _ in range(1500 if quick else 60000):
+    for _ in range(1500 if quick else 40000):
         off = rng.choice(offs) if rng.random() < 0.5 else rnd_off16(rng)
         r = rng.random()
         if r < 0.15:
@@ -788,7 +788,7 @@ def gen(rng, tier):
         for _ in range(3000 if quick else 120000):
             cases.append(gen_dt_zone(rng))
     if not quick:
-        for _ in range(450000):
+        for _ in range(250000):
             cases.append(gen_dt_fixed(rng, 60 * rng.randrange(-1439, 1440)))
     # 4b. named zones AT their transitions: repeated hours with fold 0 and 1, gaps, edges (zoneinfo, dateutil, pytz)
     cases += gen_transitions(rng, tier)
